@@ -48,6 +48,10 @@ TRUSTED = ["modelled not verified: Pebble (ordered map, range tombstones, atomic
            "(transcribed; the round trip is a theorem, the transcription is compared on generated offsets), time.Time arithmetic on whole milliseconds",
            "harness-side in-process gRPC stand-ins (client pool, streams) for the notification RPC; gRPC itself is not exercised"]
 ASSUMES = ["request keys and ranges outside '__oxia/' (user_request) and notifications enabled, for the history theorems",
+           "resume on ANOTHER node (c17_resume_on_replica): the new leader's store logged the same batches as the old leader's for the committed prefix "
+           "(h_log hB = h_log hA ++ nw) - an explicit hypothesis of the theorem, discharged by replica determinism (C06) and checked on real controllers "
+           "by the notif leg's replicated scenarios: a FollowerController created on an EMPTY directory (no term), NewTerm with the scenario's options, "
+           "entries replicated by a real rf=2 leader, Close + NewLeaderController on the same WAL/store + BecomeLeader (verdict notif:replica-batch-missing)",
            "fewer than 2^62 log entries and 2^63 put operations on a shard (int64 offsets / version ids; (first+last)/2 in the trimmer's binary search)",
            "batch timestamps non-decreasing in the offset, for 'only batches older than the retention are trimmed' (refuted without it)",
            "the quorum commit offset handed to a new subscriber's dummy batch is an input of the model (C08 owns it)"]
@@ -58,7 +62,9 @@ RULE = ("db leg (nseq): one case = 12-42 requests against a fresh real kv.DB (pl
         "request is compared with an independent reference and with the model, every changed record must be covered by its batch. leader leg (nseq): one case "
         "= 10-28 steps on a real LeaderController (writes, raw GetNotifications from every start offset, real client managers connecting / receiving k "
         "batches / breaking / continuing, leader changes to a node replaying the log, trimming, a write committing inside a trimming round, a subscriber "
-        "behind a fully trimmed range that stays connected during 40 commits), timestamps as assigned by the leader; distinct by generator "
+        "behind a fully trimmed range that stays connected during 40 commits; gated dispatch loops with commits at chosen points; every 6th scenario: rf=2 "
+        "leader + real follower on an empty directory, later promoted, resume from every offset, every 5th of those with notifications disabled by the term "
+        "options), timestamps as assigned by the leader; distinct by generator "
         "sub-seed. uncommitted leg: rf=2, 1-4 entries appended but not acknowledged, then 30000 single writes under one waiting subscriber (every batch must "
         "arrive before the next write). realclient leg: newNotifications with its retry loop on the O-17 scenario.")
 LEGS = [
